@@ -293,6 +293,7 @@ def tmpdir():
     """Per-process scratch directory, removed at exit."""
     global _TMP
     if _TMP is None or not os.path.isdir(_TMP.name) or getattr(_TMP, "_pid", None) != os.getpid():
-        _TMP = tempfile.TemporaryDirectory(prefix="verif-aldy-")
+        # all scratch space of one run lives under the run's root (created and removed by the explorer)
+        _TMP = tempfile.TemporaryDirectory(prefix="verif-aldy-", dir=os.environ.get("VERIF_TMPROOT") or None)
         _TMP._pid = os.getpid()
     return _TMP.name
